@@ -166,11 +166,11 @@ pub fn gen_files(rng: &mut Rng, max_files: usize, max_body: usize) -> Files {
     files
 }
 
-pub const REQUIRED: &[&str] = &["empty_archive", "empty_file", "empty_name", "non_ascii_name", "length_multiple_of_32", "variant_names_after_bodies", "variant_bodies_reversed"];
+pub const REQUIRED: &[&str] = &["empty_archive", "empty_file", "empty_name", "non_ascii_name", "length_multiple_of_32", "variant_names_after_bodies", "variant_bodies_reversed", "many_files"];
 
 pub fn run(cx: &mut Ctx) {
     cx.require(REQUIRED);
-    cx.rule = "ordered maps of 0..=40 distinct Shift-JIS-domain names (incl. the empty name, 2-byte characters, 31/32/33-byte names) to contents of length {0,1,31,32,33,63,64,65, random <= 4 KiB}; thorough adds maps of 255, 256, 4096 and 65535 one-byte files. Each map is serialized, read by the strict reference reader (count, names, offsets 32-aligned, sizes) and parsed back; K conforming re-arrangements written by the reference builder (names after bodies, bodies reversed, extra padding, shared name storage) are fed to the parser. non-trivial = >=2 files with >=1 length not a multiple of 32; distinct by content hash".into();
+    cx.rule = "ordered maps of 0..=40 distinct Shift-JIS-domain names (incl. the empty name, 2-byte characters, 31/32/33-byte names) to contents of length {0,1,31,32,33,63,64,65, random <= 4 KiB}; plus maps of 255, 256, 4096, 32767, 32768 and 65535 one-byte files (the count field is 16 bits). Each map is serialized, read by the strict reference reader (count, names, offsets 32-aligned, sizes) and parsed back; K conforming re-arrangements written by the reference builder (names after bodies, bodies reversed, extra padding, shared name storage) are fed to the parser. non-trivial = >=2 files with >=1 length not a multiple of 32; distinct by content hash".into();
     let miri = cfg!(miri);
     cx.case("directed", |c| {
         check(c, &vec![], 4);
@@ -178,8 +178,8 @@ pub fn run(cx: &mut Ctx) {
         check(c, &vec![("a".into(), vec![1; 32]), ("".into(), vec![2; 33]), ("日本語.bin".into(), vec![]), ("b".into(), vec![3; 31])], 8);
         c.eval(3);
     });
-    if !cx.a.quick() && !miri && cx.a.scale >= 0.99 {
-        for n in [255usize, 256, 4096, 65535] {
+    if !miri && cx.a.scale >= 0.24 {
+        for n in [255usize, 256, 4096, 32767, 32768, 65535] {
             cx.case("many_files", |c| {
                 c.sit("many_files");
                 let files: Files = (0..n).map(|i| (format!("f{}", i), vec![(i % 251) as u8])).collect();
